@@ -6,7 +6,7 @@ proof : props/C09.v — about the reference semantics Sem.v, for all programs / 
         E[M 1_stopped]/P(stopped) is the expectation under the conditional law; on flat
         programs with validated types the moments of M*arith(not G') are E[M 1_{not G'}]
         (cond_moment_exact); validator check_exit (all n) for Polar's numerator/denominator
-        closed forms; geom_limit (Coquelicot) for the limit; collapse_guard_refuted.
+        closed forms; geom_limit / limit_value (Coquelicot) for the limit; collapse_guard_old_rule_refuted.
 tie   : generated guarded programs are run through the REAL --after_loop path in a Polar worker
         (harness/tasks_afterloop.py).  (a) the conditional sequence returned by
         cli.common.get_moment_given_termination / get_all_moments_given_termination is compared
@@ -28,6 +28,8 @@ import gen
 import exppoly
 import progast as P
 
+# signatures of the three defects this check found (all fixed in /repo: 294789f, d8aa084, 347f661); the witnesses
+# stay in the quick tier, so each is reported again with a concrete input if it returns
 KNOWN_COLLAPSE = "after_loop:conditions-on-collapsed-guard"
 KNOWN_NO_LIMIT = "after_loop:limit-not-taken:integer-symbol-n"
 KNOWN_SUBS = "after_loop:get_moment_poly:single-term-coefficient"
@@ -581,7 +583,7 @@ def oracle_case_file(p, ms, NF, N, Gs_ast, envs):
         body += f"Eval vm_compute in (event_moments {vl} p0 Gs ms0 {N}).\n"
         if envs is not None:
             el = P.lst([P.lst([f'("{x}", {P.q_coq(val)})' for x, val in e]) for e in envs])
-            body += f"Eval vm_compute in [conds_agree {el} (p_guard p0) Gs; conds_agree {el} (stored_guard 8 p0) Gs].\n"
+            body += f"Eval vm_compute in [conds_agree {el} (p_guard p0) Gs; conds_agree {el} (stored_guard_old 8 p0) Gs].\n"
     return body
 
 
@@ -632,7 +634,9 @@ def run(ctx):
             key = f"{r.get('stage', 'task')}:{k}"
             errs[key] = errs.get(key, 0) + 1
             if r.get("error") in ("timeout", "crash"):
-                continue    # inconclusive (machine load / sympy's limit_seq): counted, never a verdict
+                # inconclusive (machine load / sympy's limit_seq): counted, never a verdict
+                ctx.coverage.setdefault("inconclusive_tasks", []).append({"tag": tag, "goal": goal_text(goals[0]), "why": r["error"]})
+                continue
             if is_shape[i]:
                 ctx.violation(f"refused:{tag}:{key}", {"program_text": P.prog_text(p), "result": r},
                               f"the --after_loop path fails on the hand-written shape '{tag}' ({key}: "
@@ -763,8 +767,8 @@ def run(ctx):
             # neither the source guard (repaired behaviour) nor guard & collapsed conditions (the modelled defect)
             model_reported.add(text)
             ctx.violation(f"stored-guard-model:{text}", {"program_text": text, "original_loop_guard": r.get("original_loop_guard_text")},
-                          f"program.original_loop_guard ({r.get('original_loop_guard_text')}) is neither the source guard nor the condition "
-                          f"the model AfterLoop.stored_guard predicts (guard & collapsed first-level conditions) on the typed states\n{text}",
+                          f"program.original_loop_guard ({r.get('original_loop_guard_text')}) is neither the source guard (AfterLoop.stored_guard) "
+                          f"nor the old rule's guard & collapsed first-level conditions (AfterLoop.stored_guard_old) on the typed states\n{text}",
                           no_input=True)
         for gi, (g, gr) in enumerate(zip(goals, r["goals"])):
             gname = goal_text(g)
@@ -961,6 +965,8 @@ def run(ctx):
                             f"(Sem.run, vm_compute) one guard test earlier; numerator and denominator closed forms validated for all n by "
                             f"AfterLoop.check_exit; printed value vs AfterLoopLimit.limit_value of the validated closed forms, exact values up "
                             f"to n = {NF}; non-trivial = 0 < P(stopped) < 1 at some n <= {N}; distinct by (text, goal)")
+    secs = sorted(((gr.get("seconds_after_loop") or 0, progs[i][2], gr.get("goal")) for i in live for gr in results[i].get("goals", [])), reverse=True)
+    ctx.coverage["slowest_polar_goals"] = [{"seconds": x, "tag": t, "goal": g} for x, t, g in secs[:5]]
     ctx.coverage["feature_histogram"] = feats
     ctx.coverage["polar_errors"] = errs
     ctx.coverage["comparison_status"] = stat
